@@ -17,6 +17,8 @@ CONFIGS = {
     'T8':   cfg(N=3, HEAD=1, L=3, CTX=1, feats=('HIST',)),
     'T9':   cfg(N=2, HEAD=1, PAYLOAD=1, L=2, CTX=3, feats=('HIST',)),
     'T9a':  cfg(N=2, HEAD=0, PAYLOAD=3, L=2, CTX=0, feats=('HIST',)),
+    'T9c':  cfg(N=2, HEAD=1, PAYLOAD=300, L=2, CTX=0, feats=('HIST',)),
+    'P7c':  cfg(N=2, HEAD=0, PAYLOAD=300, CAP=1, L=1, CTX=0, feats=('PLANS',)),
     'T9b':  cfg(N=2, HEAD=1, PAYLOAD=8, L=2, CTX=0, feats=('HIST', 'SER')),
     'P7a':  cfg(N=2, HEAD=1, PAYLOAD=7, CAP=2, L=1, CTX=0, feats=('PLANS',)),
     'P7b':  cfg(N=2, HEAD=0, PAYLOAD=24, CAP=2, L=1, CTX=0, feats=('PLANS',)),
@@ -52,6 +54,8 @@ CONFIGS = {
     # a state with exactly one injection that defines no callback of its own (I5: state 1) / only enter, update, exit (I6: the initial state)
     'I5':   cfg(N=3, HEAD=1, L=2, CTX=1, INJ=dict(R=1, S0=0, S1=1, S2=2), SPARSE=(1, 1)),
     'I6':   cfg(N=2, HEAD=0, L=2, CTX=0, INJ=dict(S0=1, S1=1), SPARSE=(0, 2)),
+    'I9':   cfg(N=2, HEAD=1, L=2, CTX=0, INJ=dict(R=4, S0=4, S1=1)),                                          # deep injection chains
+    'I10':  cfg(N=2, HEAD=0, L=2, CTX=0, INJ=dict(S0=5, S1=0)),
     'I7':   cfg(N=2, HEAD=1, L=2, CTX=0, INJ=dict(R=1, S0=1, S1=2), extra=('VX_INJ_VIRTUAL=1',)),       # polymorphic injections (virtual callbacks)
     'I8':   cfg(N=3, HEAD=0, L=2, CTX=0, INJ=dict(S0=1, S1=1, S2=3), SPARSE=(1, 2), extra=('VX_INJ_VIRTUAL=1',)),
     # logging
@@ -73,6 +77,9 @@ CONFIGS = {
 # plan.change<A, B>(), isActive<T>(), ...): suffix t = full forms, u = the half forms of the plan (change<A>(id))
 for _b in ('T1', 'T2', 'T5', 'P3', 'P5', 'P7', 'G1', 'GP1', 'N8', 'N8p', 'T2a'):
     CONFIGS[_b + 't'] = CONFIGS[_b] + ['VX_TFORM=1']
+# the same machines with callbacks that reach back into their machine (const query, save) while a call is in progress
+for _b in ('T1', 'T2', 'P5h', 'I1', 'T2a', 'T5'):
+    CONFIGS[_b + 'q'] = CONFIGS[_b] + ['VX_REENTRANT=1']
 for _b in ('P5', 'P7'):
     CONFIGS[_b + 'u'] = CONFIGS[_b] + ['VX_TFORM=2']
 for _l in (1, 2, 3, 4, 5, 255):
@@ -104,28 +111,28 @@ W = NCPU
 
 SPECS = {
  'C01': dict(
-    quick=[S('T1r', 1, M_T, O_TALL), S('T1', 1, M_T, O_T, flags=['--copy', '--copy-move'], props=['C01', 'C17']), S('P5h', 1, M_P0, O_PALL), S('T2t', 2, M_TP, O_TALL), S('P3t', 2, M_P, O_PALL), S('N8', 2, M_T, O_TALL, flags=['--ids=0,3,4,7']), S('N5', 1, M_T, O_TALL), S('N8p', 1, M_P, O_PALL, flags=['--ids=0,7']), S('T1', 2, M_T, O_TALL), S('T2', 2, M_TP, O_TALL), S('T3', 3, M_T, O_TALL), S('T3h', 3, M_T, O_TALL), S('P3', 2, M_P, O_PALL), S('T4', 1, M_T, O_TALL), S('A1', 0, mf('PHASE_REQ', 'GUARD_CANCEL', 'REPORT', 'PLAN_EDIT', 'PAYLOAD'), og('CORE', 'PLAN', 'REPORT', 'MANUAL', 'SERIAL', 'REPLAY', 'COPY', 'DESTROY', 'PAYLOAD', 'LOG')), S('A2', 1, mf('PHASE_REQ', 'GUARD_CANCEL', 'REPORT', 'PLAN_EDIT', 'PAYLOAD'), og('CORE', 'PLAN', 'REPORT', 'MANUAL', 'SERIAL', 'REPLAY', 'COPY', 'DESTROY', 'PAYLOAD', 'LOG'))],
+    quick=[S('I1', 2, M_T, O_T), S('I2', 2, M_T, O_T), S('I9', 1, M_T, O_T), S('I4', 1, M_P0, O_P), S('T1r', 1, M_T, O_TALL), S('T1', 1, M_T, O_T, flags=['--copy', '--copy-move'], props=['C01', 'C17']), S('P5h', 1, M_P0, O_PALL), S('T2t', 2, M_TP, O_TALL), S('P3t', 2, M_P, O_PALL), S('N8', 2, M_T, O_TALL, flags=['--ids=0,3,4,7']), S('N5', 1, M_T, O_TALL), S('N8p', 1, M_P, O_PALL, flags=['--ids=0,7']), S('T1', 2, M_T, O_TALL), S('T2', 2, M_TP, O_TALL), S('T3', 3, M_T, O_TALL), S('T3h', 3, M_T, O_TALL), S('P3', 2, M_P, O_PALL), S('T4', 1, M_T, O_TALL), S('A1', 0, mf('PHASE_REQ', 'GUARD_CANCEL', 'REPORT', 'PLAN_EDIT', 'PAYLOAD'), og('CORE', 'PLAN', 'REPORT', 'MANUAL', 'SERIAL', 'REPLAY', 'COPY', 'DESTROY', 'PAYLOAD', 'LOG')), S('A2', 1, mf('PHASE_REQ', 'GUARD_CANCEL', 'REPORT', 'PLAN_EDIT', 'PAYLOAD'), og('CORE', 'PLAN', 'REPORT', 'MANUAL', 'SERIAL', 'REPLAY', 'COPY', 'DESTROY', 'PAYLOAD', 'LOG'))],
     thorough=[S('A1', 1, mf('PHASE_REQ', 'GUARD_CANCEL', 'REPORT', 'PLAN_EDIT', 'PAYLOAD'), og('CORE', 'PLAN', 'REPORT', 'MANUAL', 'SERIAL', 'REPLAY', 'COPY', 'DESTROY', 'PAYLOAD', 'LOG'), W, share=3), S('A2', 2, mf('PHASE_REQ', 'GUARD_CANCEL', 'REPORT', 'PLAN_EDIT', 'PAYLOAD'), og('CORE', 'PLAN', 'REPORT', 'MANUAL', 'SERIAL', 'REPLAY', 'COPY', 'DESTROY', 'PAYLOAD', 'LOG'), W), S('T1', 3, M_T, O_TALL, W), S('T2', 3, M_TP, O_TALL, W), S('T3', 4, M_T, O_TALL), S('T3h', 4, M_T, O_TALL), S('T4', 2, M_T, O_TALL, W), S('T5', 2, M_TP, O_TALL, W), S('T6', 3, M_TP, O_TALL, W),
               S('P3', 3, M_P, O_PALL, W), S('P5', 2, M_P, O_PALL, W), S('P2', 1, M_P | mf('PAYLOAD'), O_PALL, W)]),
  'C02': dict(
-    quick=[S('T1', 1, M_T, O_T, flags=['--copy', '--copy-move']), S('S255', 0, M_G, og('CORE'), W, ['--strategies']), S('S1', 0, M_G, og('CORE'), W, ['--strategies']), S('P5', 2, M_P0, O_P), S('P5f', 1, M_P0, O_P), S('T1t', 2, M_T, O_T), S('T2t', 2, M_TP, O_T | og('PAYLOAD', 'MANUAL')), S('P5t', 1, M_P, O_P), S('N8', 2, M_T, O_T, flags=['--ids=0,3,4,7']), S('N5', 2, M_T, og('CORE')), S('N8p', 1, M_P0, O_P, flags=['--ids=0,7']), S('T1', 2, M_T, O_T), S('T1', 2, M_TC, og('CORE')), S('T2', 2, M_TP, O_T | og('PAYLOAD', 'MANUAL')), S('T3', 3, M_TC, O_T), S('P5', 1, M_P, O_P), S('P5', 1, M_PC, O_P), S('T4', 1, M_T, O_T), S('I2', 2, M_T | mf('INJ_DECIDE'), og('CORE'))],
+    quick=[S('T2', 1, M_TP, og('CORE', 'PAYLOAD', 'PAYLOAD2', 'MANUAL')), S('T1', 1, M_T, O_T, flags=['--copy', '--copy-move']), S('S255', 0, M_G, og('CORE'), W, ['--strategies']), S('S1', 0, M_G, og('CORE'), W, ['--strategies']), S('P5', 2, M_P0, O_P), S('P5f', 1, M_P0, O_P), S('T1t', 2, M_T, O_T), S('T2t', 2, M_TP, O_T | og('PAYLOAD', 'MANUAL')), S('P5t', 1, M_P, O_P), S('N8', 2, M_T, O_T, flags=['--ids=0,3,4,7']), S('N5', 2, M_T, og('CORE')), S('N8p', 1, M_P0, O_P, flags=['--ids=0,7']), S('T1', 2, M_T, O_T), S('T1', 2, M_TC, og('CORE')), S('T2', 2, M_TP, O_T | og('PAYLOAD', 'MANUAL')), S('T3', 3, M_TC, O_T), S('P5', 1, M_P, O_P), S('P5', 1, M_PC, O_P), S('T4', 1, M_T, O_T), S('I2', 2, M_T | mf('INJ_DECIDE'), og('CORE'))],
     thorough=[S('I1', 2, M_T | mf('INJ_DECIDE'), og('CORE'), W), S('T1', 3, M_TC, og('CORE'), W), S('P5', 2, M_PC, O_P, W), S('T1', 3, M_T, O_T, W), S('T8', 3, M_T, O_T, W), S('T2', 3, M_TP2, O_T | og('PAYLOAD', 'PAYLOAD2', 'MANUAL'), W), S('T3', 4, M_T, O_T), S('T4', 2, M_T, O_T, W), S('T6', 3, M_TP, O_T | og('PAYLOAD'), W), S('P5', 2, M_PG, O_P, W), S('P1', 1, M_P0, O_P, W)]),
  'C03': dict(
-    quick=[S('P5', 2, mf('GUARD_CANCEL', 'GUARD_REQ', 'GUARD_REPORT', 'REPORT'), og('CORE', 'PLAN', 'REPORT')), S('I4', 2, mf('GUARD_CANCEL', 'GUARD_REPORT', 'INJ_DECIDE'), og('CORE', 'REPORT')), S('T1t', 3, M_G, O_T), S('T2t', 2, M_G | mf('PAYLOAD'), O_T | og('PAYLOAD', 'MANUAL')), S('N8', 3, M_G, og('CORE'), flags=['--ids=0,3,4,7']), S('N5', 2, M_G, og('CORE')), S('T1', 3, M_G, O_T), S('T2', 3, M_G | mf('PAYLOAD'), O_T | og('PAYLOAD', 'MANUAL', 'REPLAY', 'SERIAL')), S('T3', 3, M_G, O_T), S('T8', 3, M_G, og('CORE')), S('T1', 2, M_T, O_T | og('REPLAY')), S('I1', 2, M_G | mf('INJ_DECIDE'), og('CORE')), S('I2', 2, M_G | mf('INJ_DECIDE'), og('CORE')), S('T1', 2, M_GC, og('CORE')), S('T3', 3, M_GC, og('CORE'))],
+    quick=[S('I9', 2, M_G | mf('INJ_DECIDE'), og('CORE')), S('I10', 2, M_G | mf('INJ_DECIDE'), og('CORE')), S('T2', 2, M_G | mf('PAYLOAD'), og('CORE', 'PAYLOAD', 'PAYLOAD2', 'MANUAL')), S('P5', 2, mf('GUARD_CANCEL', 'GUARD_REQ', 'GUARD_REPORT', 'REPORT'), og('CORE', 'PLAN', 'REPORT')), S('I4', 2, mf('GUARD_CANCEL', 'GUARD_REPORT', 'INJ_DECIDE'), og('CORE', 'REPORT')), S('T1t', 3, M_G, O_T), S('T2t', 2, M_G | mf('PAYLOAD'), O_T | og('PAYLOAD', 'MANUAL')), S('N8', 3, M_G, og('CORE'), flags=['--ids=0,3,4,7']), S('N5', 2, M_G, og('CORE')), S('T1', 3, M_G, O_T), S('T2', 3, M_G | mf('PAYLOAD'), O_T | og('PAYLOAD', 'MANUAL', 'REPLAY', 'SERIAL')), S('T3', 3, M_G, O_T), S('T8', 3, M_G, og('CORE')), S('T1', 2, M_T, O_T | og('REPLAY')), S('I1', 2, M_G | mf('INJ_DECIDE'), og('CORE')), S('I2', 2, M_G | mf('INJ_DECIDE'), og('CORE')), S('T1', 2, M_GC, og('CORE')), S('T3', 3, M_GC, og('CORE'))],
     thorough=[S('T1', 3, M_GC, og('CORE'), W), S('T8', 3, M_GC, og('CORE'), W), S('T1', 4, M_G, O_T, W), S('T8', 4, M_G, og('CORE'), W), S('T2', 4, M_G | mf('PAYLOAD'), O_T | og('PAYLOAD', 'MANUAL', 'REPLAY', 'SERIAL'), W), S('T3', 4, M_G, O_T), S('T4', 3, M_G, og('CORE'), W), S('T1', 3, M_T, O_T | og('REPLAY'), W), S('T5', 3, M_G | mf('PAYLOAD'), O_T | og('PAYLOAD', 'MANUAL', 'REPLAY', 'SERIAL'), W), S('I1', 3, M_G | mf('INJ_DECIDE'), og('CORE'), W), S('I2', 3, M_G | mf('INJ_DECIDE'), og('CORE'), W)]),
  'C04': dict(
-    quick=[S('S3_1', 0, M_G, og('CORE'), W, ['--strategies']), S('S3_2', 0, M_G, og('CORE'), W, ['--strategies']), S('S3_3', 0, M_G, og('CORE'), W, ['--strategies']), S('I2', 3, M_G | mf('INJ_DECIDE'), og('CORE')), S('I1', 2, M_G | mf('INJ_DECIDE'), og('CORE')), S('SM1', 0, M_G, og('CORE', 'MANUAL'), W, ['--strategies']), S('SM2', 0, M_G, og('CORE', 'MANUAL'), W, ['--strategies']), S('SM3', 0, M_G, og('CORE', 'MANUAL'), W, ['--strategies']), S('SP2', 0, M_G, og('CORE', 'PAYLOAD', 'IMM'), W, ['--strategies']), S('SP1', 0, M_G, og('CORE', 'PAYLOAD', 'IMM'), W, ['--strategies']), S('T2', 2, M_G | mf('PAYLOAD'), og('CORE', 'MANUAL', 'PAYLOAD')), S('S1', 0, M_G, og('CORE'), W, ['--strategies']), S('S2', 0, M_G, og('CORE'), W, ['--strategies']), S('S3', 0, M_G, og('CORE'), W, ['--strategies']), S('S5', 0, M_G, og('CORE'), W, ['--strategies']), S('S255', 0, M_G, og('CORE'), W, ['--strategies']),
+    quick=[S('S3_1', 0, M_G, og('CORE'), W, ['--strategies']), S('S3_2', 0, M_G, og('CORE'), W, ['--strategies']), S('S3_3', 0, M_G, og('CORE'), W, ['--strategies']), S('I2', 3, M_G | mf('INJ_DECIDE'), og('CORE')), S('I1', 2, M_G | mf('INJ_DECIDE'), og('CORE')), S('SM1', 0, M_G, og('CORE', 'MANUAL'), W, ['--strategies']), S('SM2', 0, M_G, og('CORE', 'MANUAL'), W, ['--strategies']), S('SM3', 0, M_G, og('CORE', 'MANUAL'), W, ['--strategies']), S('SP2', 0, M_G | mf('PAYLOAD', 'PAYLOAD2'), og('CORE', 'PAYLOAD', 'IMM'), W, ['--strategies']), S('SP1', 0, M_G | mf('PAYLOAD', 'PAYLOAD2'), og('CORE', 'PAYLOAD', 'IMM'), W, ['--strategies']), S('T2', 2, M_G | mf('PAYLOAD'), og('CORE', 'MANUAL', 'PAYLOAD')), S('S1', 0, M_G, og('CORE'), W, ['--strategies']), S('S2', 0, M_G, og('CORE'), W, ['--strategies']), S('S3', 0, M_G, og('CORE'), W, ['--strategies']), S('S5', 0, M_G, og('CORE'), W, ['--strategies']), S('S255', 0, M_G, og('CORE'), W, ['--strategies']),
            S('T1', 3, M_G, og('CORE')), S('T3', 3, M_T, og('CORE'))],
     thorough=[S('S%d' % l, 0, M_G, og('CORE'), W, ['--strategies']) for l in (1, 2, 3, 4, 5, 255)] + [S('S3_%d' % l, 0, mf('GUARD_CANCEL', 'GUARD_REQ'), og('CORE'), W, ['--strategies'], share=3.0) for l in (1, 2, 3, 4, 5, 255)] + [S('SH3_%d' % l, 0, mf('GUARD_CANCEL', 'GUARD_REQ'), og('CORE'), W, ['--strategies'], share=4.0) for l in (1, 2, 3)] + [S('SM%d' % l, 0, M_G, og('CORE', 'MANUAL'), W, ['--strategies']) for l in (1, 2, 3, 4, 5, 255)] + [S('SP%d' % l, 0, M_G, og('CORE', 'PAYLOAD', 'IMM'), W, ['--strategies']) for l in (1, 2, 3, 255)] +
              [S('T1', 4, M_G, og('CORE'), W), S('T8', 4, M_G, og('CORE'), W), S('T2', 3, M_G, og('CORE', 'MANUAL'), W), S('T1', 3, M_T, O_T, W)]),
  'C05': dict(
-    quick=[S('I5', 1, M_T, og('CORE', 'REACT', 'QUERY')), S('I6', 1, M_T, og('CORE', 'REACT', 'QUERY')), S('I8', 1, M_T, og('CORE', 'REACT', 'QUERY')), S('I1', 1, M_T, O_T), S('I2', 2, M_T, O_T), S('I4', 1, M_P0, O_P | og('REACT')), S('T1t', 2, M_T, O_T), S('P5t', 1, M_P0, O_P | og('REACT', 'QUERY')), S('N8', 1, M_T, O_T, flags=['--ids=0,3,4,7']), S('N5', 1, M_T, O_T), S('N7p', 1, M_P0, O_P | og('REACT', 'QUERY'), flags=['--ids=0,3,6']), S('T1', 2, M_T, O_T), S('T2', 2, M_TP, O_T | og('MANUAL')), S('T3', 3, M_T, O_T), S('P3', 2, M_P, O_P | og('REACT', 'QUERY')), S('P5', 1, M_P, O_P | og('REACT', 'QUERY')), S('T4', 1, M_T, O_T)],
+    quick=[S('T1q', 2, M_T, O_T), S('T2q', 1, M_TP, O_T | og('MANUAL', 'PAYLOAD')), S('I1q', 1, M_T, O_T), S('I9', 1, M_T, O_T), S('I5', 1, M_T, og('CORE', 'REACT', 'QUERY')), S('I6', 1, M_T, og('CORE', 'REACT', 'QUERY')), S('I8', 1, M_T, og('CORE', 'REACT', 'QUERY')), S('I1', 1, M_T, O_T), S('I2', 2, M_T, O_T), S('I4', 1, M_P0, O_P | og('REACT')), S('T1t', 2, M_T, O_T), S('P5t', 1, M_P0, O_P | og('REACT', 'QUERY')), S('N8', 1, M_T, O_T, flags=['--ids=0,3,4,7']), S('N5', 1, M_T, O_T), S('N7p', 1, M_P0, O_P | og('REACT', 'QUERY'), flags=['--ids=0,3,6']), S('T1', 2, M_T, O_T), S('T2', 2, M_TP, O_T | og('MANUAL')), S('T3', 3, M_T, O_T), S('P3', 2, M_P, O_P | og('REACT', 'QUERY')), S('P5', 1, M_P, O_P | og('REACT', 'QUERY')), S('T4', 1, M_T, O_T)],
     thorough=[S('T1', 3, M_T, O_T, W), S('T2', 3, M_TP, O_T | og('MANUAL'), W), S('T3', 4, M_T, O_T), S('T4', 2, M_T, O_T, W), S('P3', 3, M_P, O_P | og('REACT', 'QUERY'), W), S('P5', 2, M_P, O_P | og('REACT', 'QUERY'), W), S('I1', 2, M_T, O_T, W)]),
  'C06': dict(
-    quick=[S('P5', 2, M_P0 | mf('REPORT_OTHER'), og('CORE', 'REPORT')), S('T1r', 2, M_T, O_T), S('P5h', 1, M_P0, O_P | og('SERIAL', 'QUERY')), S('T1t', 2, M_T, O_T | og('REPLAY')), S('T2t', 2, M_TP, O_T | og('PAYLOAD', 'MANUAL')), S('P5t', 1, M_PG, O_P | og('REACT', 'QUERY')), S('N8', 2, M_T, O_T | og('REPLAY'), flags=['--ids=0,3,4,7']), S('N5', 1, M_T, O_T), S('T1', 2, M_T, O_T | og('REPLAY')), S('T2', 2, M_TP, O_T | og('PAYLOAD', 'MANUAL', 'REPLAY', 'SERIAL')), S('T9', 2, M_TP, O_T | og('PAYLOAD')), S('T3', 3, M_T, O_T), S('P5', 1, M_PG, O_P | og('REACT', 'QUERY')), S('T4', 1, M_T, O_T), S('I1', 1, M_T | mf('INJ_DECIDE'), O_T), S('T1', 2, M_TC, og('CORE')), S('A2', 1, mf('PHASE_REQ', 'GUARD_CANCEL', 'REPORT', 'PLAN_EDIT', 'PAYLOAD'), og('CORE', 'PLAN', 'REPORT', 'MANUAL', 'SERIAL', 'REPLAY', 'COPY', 'DESTROY', 'PAYLOAD', 'LOG')), S('A1', 0, mf('PHASE_REQ', 'GUARD_CANCEL', 'REPORT', 'PLAN_EDIT', 'PAYLOAD'), og('CORE', 'PLAN', 'REPORT', 'MANUAL', 'SERIAL', 'REPLAY', 'COPY', 'DESTROY', 'PAYLOAD', 'LOG'))],
+    quick=[S('T6', 2, M_TP | mf('COMPOSITE'), og('CORE', 'PAYLOAD')), S('T1', 1, M_T, O_T, flags=['--copy', '--copy-move']), S('P5', 2, M_P0 | mf('REPORT_OTHER'), og('CORE', 'REPORT')), S('T1r', 2, M_T, O_T), S('P5h', 1, M_P0, O_P | og('SERIAL', 'QUERY')), S('T1t', 2, M_T, O_T | og('REPLAY')), S('T2t', 2, M_TP, O_T | og('PAYLOAD', 'MANUAL')), S('P5t', 1, M_PG, O_P | og('REACT', 'QUERY')), S('N8', 2, M_T, O_T | og('REPLAY'), flags=['--ids=0,3,4,7']), S('N5', 1, M_T, O_T), S('T1', 2, M_T, O_T | og('REPLAY')), S('T2', 2, M_TP, O_T | og('PAYLOAD', 'MANUAL', 'REPLAY', 'SERIAL')), S('T9', 2, M_TP, O_T | og('PAYLOAD')), S('T3', 3, M_T, O_T), S('P5', 1, M_PG, O_P | og('REACT', 'QUERY')), S('T4', 1, M_T, O_T), S('I1', 1, M_T | mf('INJ_DECIDE'), O_T), S('T1', 2, M_TC, og('CORE')), S('A2', 1, mf('PHASE_REQ', 'GUARD_CANCEL', 'REPORT', 'PLAN_EDIT', 'PAYLOAD'), og('CORE', 'PLAN', 'REPORT', 'MANUAL', 'SERIAL', 'REPLAY', 'COPY', 'DESTROY', 'PAYLOAD', 'LOG')), S('A1', 0, mf('PHASE_REQ', 'GUARD_CANCEL', 'REPORT', 'PLAN_EDIT', 'PAYLOAD'), og('CORE', 'PLAN', 'REPORT', 'MANUAL', 'SERIAL', 'REPLAY', 'COPY', 'DESTROY', 'PAYLOAD', 'LOG'))],
     thorough=[S('T1', 3, M_T, O_T | og('REPLAY'), W), S('T2', 3, M_TP, O_T | og('PAYLOAD', 'MANUAL', 'REPLAY', 'SERIAL'), W), S('T9', 3, M_TP, O_T | og('PAYLOAD'), W), S('T3', 4, M_T, O_T), S('T4', 2, M_T, O_T, W), S('T5', 2, M_TP, O_TALL, W), S('P5', 2, M_PG, O_P | og('REACT', 'QUERY'), W), S('I1', 2, M_T | mf('INJ_DECIDE'), O_T, W)]),
  'C07': dict(
-    quick=[S('T2', 1, M_TP, O_T | og('PAYLOAD', 'PAYLOAD2', 'MANUAL', 'REPLAY', 'SERIAL')), S('P7a', 0, mf('REPORT', 'PAYLOAD'), og('CORE', 'PLAN', 'REPORT', 'PAYLOAD', 'PAYLOAD2')), S('T9', 1, M_TP, O_T | og('PAYLOAD', 'PAYLOAD2')), S('T2', 1, M_TP, O_T | og('PAYLOAD', 'MANUAL'), flags=['--copy', '--copy-move']), S('T9b', 1, M_TP, O_T | og('PAYLOAD'), flags=['--copy']), S('P7', 0, M_P0 | mf('PAYLOAD'), O_P | og('PAYLOAD'), flags=['--copy', '--copy-move']), S('T9a', 2, M_TP, O_T | og('PAYLOAD')), S('T9b', 2, M_TP, O_T | og('PAYLOAD', 'SERIAL')), S('P7a', 1, M_P0 | mf('PAYLOAD'), O_P | og('PAYLOAD')), S('P7b', 0, M_P0 | mf('PAYLOAD'), O_P | og('PAYLOAD')), S('P7h', 1, M_P0 | mf('PAYLOAD'), O_P | og('PAYLOAD', 'SERIAL')), S('T2t', 2, M_TP, O_T | og('PAYLOAD', 'MANUAL', 'REPLAY')), S('P7t', 1, M_P0 | mf('PAYLOAD'), O_P | og('PAYLOAD')), S('P7u', 0, M_P0 | mf('PAYLOAD'), O_P | og('PAYLOAD')), S('T2', 2, M_TP | mf('COMPOSITE'), og('CORE', 'PAYLOAD', 'MANUAL')), S('T9', 2, M_TP | mf('COMPOSITE'), og('CORE', 'PAYLOAD')), S('T2', 2, M_TP2, O_T | og('PAYLOAD', 'PAYLOAD2', 'MANUAL')), S('T6', 2, M_TP2, O_T | og('PAYLOAD', 'PAYLOAD2')), S('T9', 2, M_TP2, O_T | og('PAYLOAD', 'PAYLOAD2')), S('P7', 1, M_P | mf('PAYLOAD'), O_P | og('PAYLOAD'))],
+    quick=[S('T9c', 1, M_TP, O_T | og('PAYLOAD')), S('P7c', 0, M_P0 | mf('PAYLOAD'), O_P | og('PAYLOAD')), S('T2', 2, M_TP | mf('COMPOSITE'), og('CORE', 'PAYLOAD', 'MANUAL')), S('T6', 2, M_TP | mf('COMPOSITE'), og('CORE', 'PAYLOAD')), S('T2', 1, M_TP, O_T | og('PAYLOAD', 'PAYLOAD2', 'MANUAL', 'REPLAY', 'SERIAL')), S('P7a', 0, mf('REPORT', 'PAYLOAD'), og('CORE', 'PLAN', 'REPORT', 'PAYLOAD', 'PAYLOAD2')), S('T9', 1, M_TP, O_T | og('PAYLOAD', 'PAYLOAD2')), S('T2', 1, M_TP, O_T | og('PAYLOAD', 'MANUAL'), flags=['--copy', '--copy-move']), S('T9b', 1, M_TP, O_T | og('PAYLOAD'), flags=['--copy']), S('P7', 0, M_P0 | mf('PAYLOAD'), O_P | og('PAYLOAD'), flags=['--copy', '--copy-move']), S('T9a', 2, M_TP, O_T | og('PAYLOAD')), S('T9b', 2, M_TP, O_T | og('PAYLOAD', 'SERIAL')), S('P7a', 1, M_P0 | mf('PAYLOAD'), O_P | og('PAYLOAD')), S('P7b', 0, M_P0 | mf('PAYLOAD'), O_P | og('PAYLOAD')), S('P7h', 1, M_P0 | mf('PAYLOAD'), O_P | og('PAYLOAD', 'SERIAL')), S('T2t', 2, M_TP, O_T | og('PAYLOAD', 'MANUAL', 'REPLAY')), S('P7t', 1, M_P0 | mf('PAYLOAD'), O_P | og('PAYLOAD')), S('P7u', 0, M_P0 | mf('PAYLOAD'), O_P | og('PAYLOAD')), S('T2', 2, M_TP | mf('COMPOSITE'), og('CORE', 'PAYLOAD', 'MANUAL')), S('T9', 2, M_TP | mf('COMPOSITE'), og('CORE', 'PAYLOAD')), S('T2', 2, M_TP2, O_T | og('PAYLOAD', 'PAYLOAD2', 'MANUAL')), S('T6', 2, M_TP2, O_T | og('PAYLOAD', 'PAYLOAD2')), S('T9', 2, M_TP2, O_T | og('PAYLOAD', 'PAYLOAD2')), S('P7', 1, M_P | mf('PAYLOAD'), O_P | og('PAYLOAD'))],
     thorough=[S('T2', 3, M_TP2, O_T | og('PAYLOAD', 'PAYLOAD2', 'MANUAL'), W), S('T6', 3, M_TP2, O_T | og('PAYLOAD', 'PAYLOAD2'), W), S('T9', 3, M_TP2, O_T | og('PAYLOAD', 'PAYLOAD2'), W), S('T5', 2, M_TP2, O_T | og('PAYLOAD', 'PAYLOAD2', 'MANUAL'), W), S('P7', 2, M_P0 | mf('PAYLOAD'), O_P | og('PAYLOAD'), W), S('P2', 1, M_P0 | mf('PAYLOAD'), O_P | og('PAYLOAD', 'MANUAL'), W)]),
  'C08': dict(
     quick=[S('P6m', 0, M_P, O_P | og('MANUAL', 'SERIAL'), W), S('P7', 0, M_P0 | mf('PAYLOAD'), O_P | og('PAYLOAD'), W), S('P8c', 0, M_P0, og('CORE', 'PLAN', 'REPORT'), W), S('P5h', 1, M_P0, O_P | og('SERIAL'), W), S('P7h', 0, M_P0 | mf('PAYLOAD'), O_P | og('PAYLOAD', 'SERIAL'), W), S('P5t', 2, M_P0, O_P, W), S('P5u', 1, M_P, O_P | og('PLAN_REMOVE'), W), S('P7t', 1, M_P0 | mf('PAYLOAD'), O_P | og('PAYLOAD'), W), S('N8p', 2, M_P0 | mf('REPORT_OTHER'), O_P, W, flags=['--ids=0,7']), S('N7p', 1, M_P | mf('GUARD_REQ'), O_P | og('PLAN_REMOVE'), W, flags=['--ids=0,3,6']), S('P5', 2, M_P0, O_P, W), S('P3', 2, M_P, O_P | og('PLAN_REMOVE')), S('P6', 1, M_P, O_P | og('PLAN_REMOVE'), W), S('P5', 1, M_PG, O_P | og('REACT', 'PLAN_REMOVE'), W), S('P5', 1, M_PC, O_P, W), S('P3', 2, M_PC, O_P)],
@@ -135,14 +142,14 @@ SPECS = {
            S('P3', 1, M_P, O_P | og('PLAN_REMOVE'), variant='plain-O0', prefills=[0x00, 0xFF, 0xA5]), S('P5', 1, M_P0, O_P, variant='plain-O0', prefills=[0x00, 0xFF])],
     thorough=[S('P5', 2, M_PC, O_P, W, share=2), S('P5', 2, M_PG, O_P | og('REACT', 'PLAN_REMOVE'), W, share=3, prefills=[0x00, 0xFF]), S('P3', 3, M_P, O_P | og('PLAN_REMOVE'), W, prefills=[0x00, 0xFF, 0xA5]), S('P6', 2, M_P, O_P | og('PLAN_REMOVE'), W), S('P1', 1, M_P0, O_P, W, share=4), S('P2', 1, M_P0 | mf('PAYLOAD'), O_P | og('PAYLOAD', 'MANUAL'), W, share=2), S('P5h', 1, M_P, O_P | og('SERIAL', 'REPLAY'), W)]),
  'C11': dict(
-    quick=[S('T1', 1, M_T, O_T | og('REPLAY'), flags=['--copy', '--copy-move']), S('T2', 1, M_TP, O_T | og('PAYLOAD', 'MANUAL', 'REPLAY'), flags=['--copy']), S('P7', 1, M_P0 | mf('PAYLOAD'), O_P | og('PAYLOAD', 'REPLAY'), flags=['--replica']), S('T2t', 2, M_TP, O_T | og('PAYLOAD', 'MANUAL', 'REPLAY', 'COPY', 'SERIAL'), flags=['--replica']), S('N8', 2, M_T, O_T | og('REPLAY'), flags=['--replica', '--ids=0,3,4,7']), S('N5', 1, M_T, O_T | og('REPLAY'), flags=['--replica']), S('T1', 2, M_T, O_T | og('REPLAY', 'COPY'), flags=['--replica']), S('T2', 2, M_TP, O_T | og('PAYLOAD', 'MANUAL', 'REPLAY', 'COPY', 'SERIAL'), flags=['--replica']), S('T3h', 3, M_T, O_T | og('REPLAY'), flags=['--replica']), S('T4', 1, M_T, O_T | og('REPLAY'), flags=['--replica'])],
+    quick=[S('T2', 2, M_TP2, O_T | og('PAYLOAD', 'MANUAL', 'REPLAY')), S('T6', 2, M_TP | mf('COMPOSITE'), og('CORE', 'PAYLOAD')), S('T1', 1, M_T, O_T | og('REPLAY'), flags=['--copy', '--copy-move']), S('T2', 1, M_TP, O_T | og('PAYLOAD', 'MANUAL', 'REPLAY'), flags=['--copy']), S('P7', 1, M_P0 | mf('PAYLOAD'), O_P | og('PAYLOAD', 'REPLAY'), flags=['--replica']), S('T2t', 2, M_TP, O_T | og('PAYLOAD', 'MANUAL', 'REPLAY', 'COPY', 'SERIAL'), flags=['--replica']), S('N8', 2, M_T, O_T | og('REPLAY'), flags=['--replica', '--ids=0,3,4,7']), S('N5', 1, M_T, O_T | og('REPLAY'), flags=['--replica']), S('T1', 2, M_T, O_T | og('REPLAY', 'COPY'), flags=['--replica']), S('T2', 2, M_TP, O_T | og('PAYLOAD', 'MANUAL', 'REPLAY', 'COPY', 'SERIAL'), flags=['--replica']), S('T3h', 3, M_T, O_T | og('REPLAY'), flags=['--replica']), S('T4', 1, M_T, O_T | og('REPLAY'), flags=['--replica'])],
     thorough=[S('T1', 3, M_T, O_T | og('REPLAY', 'COPY'), W, ['--replica']), S('T2', 3, M_TP, O_T | og('PAYLOAD', 'MANUAL', 'REPLAY', 'COPY', 'SERIAL'), W, ['--replica']), S('T3h', 4, M_T, O_T | og('REPLAY'), flags=['--replica']), S('T4', 2, M_T, O_T | og('REPLAY'), W, ['--replica']),
               S('T5', 2, M_TP, O_T | og('PAYLOAD', 'MANUAL', 'REPLAY', 'COPY', 'SERIAL'), W, ['--replica']), S('T6', 3, M_TP, O_T | og('PAYLOAD', 'REPLAY'), W, ['--replica']), S('P2', 1, M_P0 | mf('PAYLOAD'), O_P | og('PAYLOAD', 'MANUAL', 'REPLAY'), W, ['--replica'])]),
  'C15': dict(
-    quick=[S('I7', 2, M_T, O_T), S('I8', 1, M_T, O_T), S('I4', 1, M_P0, O_P | og('REACT')), S('I1', 1, M_T, O_T), S('I2', 2, M_T, O_T), S('I3', 2, M_T, O_T), S('I4', 1, M_P0, O_P), S('I5', 2, M_T, O_T), S('I6', 2, M_T, O_T), S('I1', 1, M_T | mf('INJ_DECIDE'), O_T), S('I2', 2, M_T | mf('INJ_DECIDE'), og('CORE')), S('I5', 1, M_T | mf('INJ_DECIDE'), O_T)],
+    quick=[S('I9', 1, M_T, O_T), S('I10', 1, M_T, O_T), S('I9', 1, M_T | mf('INJ_DECIDE'), og('CORE')), S('I7', 2, M_T, O_T), S('I8', 1, M_T, O_T), S('I4', 1, M_P0, O_P | og('REACT')), S('I1', 1, M_T, O_T), S('I2', 2, M_T, O_T), S('I3', 2, M_T, O_T), S('I4', 1, M_P0, O_P), S('I5', 2, M_T, O_T), S('I6', 2, M_T, O_T), S('I1', 1, M_T | mf('INJ_DECIDE'), O_T), S('I2', 2, M_T | mf('INJ_DECIDE'), og('CORE')), S('I5', 1, M_T | mf('INJ_DECIDE'), O_T)],
     thorough=[S('I1', 2, M_T, O_T, W), S('I2', 3, M_T, O_T, W), S('I3', 3, M_T, O_T), S('I4', 2, M_P0, O_P, W), S('I1', 2, M_T | mf('INJ_DECIDE'), O_T, W), S('I2', 3, M_T | mf('INJ_DECIDE'), O_T, W), S('I5', 3, M_T, O_T, W), S('I6', 3, M_T, O_T, W), S('I5', 2, M_T | mf('INJ_DECIDE'), O_T, W), S('I6', 2, M_T | mf('INJ_DECIDE'), O_T, W)]),
  'C17': dict(
-    quick=[S('P8c', 0, M_P0, og('CORE', 'PLAN', 'REPORT', 'COPY'), W, ['--copy']), S('T1', 2, M_T, O_T | og('REPLAY'), flags=['--copy', '--copy-move'], prefills=[0x00, 0xFF]), S('P5', 1, M_P0, O_P, W, ['--copy', '--copy-move']), S('T2', 1, M_TP, O_TALL, flags=['--copy', '--copy-move']), S('T2t', 2, M_TP, O_TALL, flags=['--copy']), S('P5t', 1, M_P, O_PALL, W, ['--copy']), S('N8p', 1, M_P | mf('REPORT_OTHER'), O_PALL, W, ['--copy', '--ids=0,7'], prefills=[0x00, 0xFF]), S('N8', 2, M_T, O_TALL, W, ['--copy', '--ids=0,3,4,7']), S('T1', 2, M_T, O_T | og('REPLAY', 'COPY', 'DESTROY'), flags=['--copy'], prefills=[0x00, 0xFF, 0xA5]), S('T2', 2, M_TP, O_TALL, flags=['--copy'], prefills=[0x00, 0xFF]),
+    quick=[S('P6m', 0, M_P0, O_P | og('MANUAL', 'COPY'), W, ['--copy']), S('P8c', 0, M_P0, og('CORE', 'PLAN', 'REPORT', 'COPY'), W, ['--copy']), S('T1', 2, M_T, O_T | og('REPLAY'), flags=['--copy', '--copy-move'], prefills=[0x00, 0xFF]), S('P5', 1, M_P0, O_P, W, ['--copy', '--copy-move']), S('T2', 1, M_TP, O_TALL, flags=['--copy', '--copy-move']), S('T2t', 2, M_TP, O_TALL, flags=['--copy']), S('P5t', 1, M_P, O_PALL, W, ['--copy']), S('N8p', 1, M_P | mf('REPORT_OTHER'), O_PALL, W, ['--copy', '--ids=0,7'], prefills=[0x00, 0xFF]), S('N8', 2, M_T, O_TALL, W, ['--copy', '--ids=0,3,4,7']), S('T1', 2, M_T, O_T | og('REPLAY', 'COPY', 'DESTROY'), flags=['--copy'], prefills=[0x00, 0xFF, 0xA5]), S('T2', 2, M_TP, O_TALL, flags=['--copy'], prefills=[0x00, 0xFF]),
            S('P5', 1, M_P, O_PALL, W, ['--copy'], prefills=[0x00, 0xFF, 0xA5]), S('P5h', 1, M_P0, O_PALL, W, ['--copy'], prefills=[0xFF]),
            S('T2', 1, M_TP, O_TALL, flags=['--copy'], variant='plain-O0', prefills=[0x00, 0xFF, 0xA5]), S('P3', 1, M_P, O_PALL, flags=['--copy'], variant='plain-O0', prefills=[0x00, 0xFF, 0xA5]),
            S('A2', 1, mf('PHASE_REQ', 'GUARD_CANCEL', 'REPORT', 'PLAN_EDIT', 'PAYLOAD'), og('CORE', 'PLAN', 'REPORT', 'MANUAL', 'SERIAL', 'REPLAY', 'COPY', 'DESTROY', 'PAYLOAD', 'LOG'), W, ['--copy'], prefills=[0x00, 0xFF]), S('A1', 0, mf('PHASE_REQ', 'GUARD_CANCEL', 'REPORT', 'PLAN_EDIT', 'PAYLOAD'), og('CORE', 'PLAN', 'REPORT', 'MANUAL', 'SERIAL', 'REPLAY', 'COPY', 'DESTROY', 'PAYLOAD', 'LOG'), W, ['--copy']),
